@@ -288,6 +288,35 @@ class Flow:
         ranks = [i for i, d in enumerate(self.defs) if d.var == name]
         return f"{name}@" + "_".join(str(ranks.index(i)) for i in a)
 
+    def _forwarded_store(self, name: str, key, at: int) -> "Def | None":
+        """The unique `name[key] = v` whose value `name[key]` still has at `at` (no other possible write in between)."""
+        def const_key(d: "Def"):
+            if d.kind == "mutate" and isinstance(d.value, ast.Tuple) and len(d.value.elts) == 2:
+                sub = d.value.elts[1]
+                if isinstance(sub, ast.Subscript) and isinstance(sub.value, ast.Name) and sub.value.id == name and isinstance(sub.slice, ast.Constant):
+                    return (sub.slice.value,)
+            return None
+
+        alld = [d for d in self.defs if d.var == name]
+        if sum(1 for d in alld if d.kind != "mutate") != 1 or any(d.kind not in ("assign", "mutate") for d in alld):
+            return None
+        cands = [d for d in self.reaching(name, at) if const_key(d) == (key,) and isinstance(d.stmt, ast.Assign)]
+        if len(cands) != 1:
+            return None
+        s = cands[0]
+        if s.node == at or not self.cfg.dominates(s.node, at):
+            return None
+        after_s = self.cfg.reachable(s.node)
+        for m in alld:
+            if m is s or m.kind != "mutate":
+                continue
+            k = const_key(m)
+            if k is not None and k != (key,):
+                continue   # a different constant element
+            if m.node in after_s and (m.node == at or at in self.cfg.reachable(m.node, avoid={s.node})) and m.node != s.node:
+                return None
+        return s
+
     def _in_cycle(self, node: int) -> bool:
         if node not in self._in_cycle_cache:
             self._in_cycle_cache[node] = node in self.cfg.reachable(node)
@@ -318,11 +347,23 @@ class Flow:
                 d = ds[0]
                 if d.kind != "assign" or d.value is None:
                     return leave(node)
+                if any(m.var == node.id and m.kind == "mutate" for m in flow.defs_at.get(at, ())):
+                    return leave(node)   # the object being updated in place by this very statement keeps its name
                 # a stateful call substituted for its temporary denotes "the latest execution of call site #k", which is
                 # what the single reaching definition holds; a stale copy (`prev = x` before `x` is read again) is
                 # caught by the version label of `x`
                 sub = flow._expand(clone(d.value), d.value, d.node, depth - 1, stop, root)
                 return sub
+
+            def visit_Subscript(self, node: ast.Subscript):  # noqa: N802
+                # store-to-load forwarding on a local container: `d["k"] = v ... d["k"]` reads v when that store is the
+                # last possible write of the element on every path
+                if isinstance(node.ctx, ast.Load) and isinstance(node.value, ast.Name) and isinstance(node.slice, ast.Constant) \
+                        and depth > 0 and node.value.id not in stop and not getattr(node.value, "_bound", False):
+                    st = flow._forwarded_store(node.value.id, node.slice.value, at)
+                    if st is not None:
+                        return flow._expand(clone(st.value.elts[0]), st.value.elts[0], st.node, depth - 1, stop, root)
+                return self.generic_visit(node)
 
             def visit_Call(self, node: ast.Call):  # noqa: N802
                 tok = getattr(node, "_impure_token", None)
